@@ -105,14 +105,21 @@ Emit == PrintT("CASE " \o ToJson([p |-> p, valid |-> Valid(p), ndev |-> Cardinal
 ---------------------------------------------------------------------------
 (* RFC 6902 operation lists, emitted once (constants of the model) *)
 Ops    == {"add", "remove", "replace", "move", "copy", "test", "frobnicate"}
-Paths  == {"/publicKey", "/publicKey/0", "/publicKeys", "/service", "/service/0/id", "/other", "/arr/0", "/arr/-1", "/arr/-", "/arr/5", "/missing/x",
-           "/nul/x", "", "ABSENT", "NONSTRING", "/a~1b", "/other/deep/er"}
-Froms  == {"ABSENT", "/publicKey", "/service/0", "/other", "/arr/0", "/missing", "NONSTRING"}
+Paths  == {"/publicKey", "/publicKey/0", "/publicKeys", "/service", "/service/0/id", "/serviceCount", "/other", "/arr/0", "/arr/-1", "/arr/-", "/arr/5", "/missing/x",
+           "/nul/x", "", "ABSENT", "NONSTRING", "NULL", "/a~1b", "/other/deep/er",
+           \* no leading '/': the JSON patch library ignores what precedes the first '/', so these address the sections
+           "x/publicKey", "publicKey", "x/service/0",
+           \* other spellings of /arr/0 (a copy from /arr/0 into them is a copy into itself) and an index far beyond the end
+           "/arr/00/-", "/arr/+0/-", "/arr/1099511627776"}
+\* "NULL": the member is present with the JSON value null; "/copied": what the first operation {copy /other -> /copied} created
+Froms  == {"ABSENT", "/publicKey", "/service/0", "/other", "/arr/0", "/missing", "NONSTRING", "NULL", "/copied", "x/service", "/publicKeys"}
 Values == {"present", "null", "ABSENT"}
-InProtected(s) == s \in {"/publicKey", "/publicKey/0", "/publicKeys", "/service", "/service/0/id", "/service/0"}
-\* "/publicKeys" shares the prefix "/publicKey": the property speaks of the sections, the rule is prefix based; both readings reject it
-OpValid(o) == /\ o.path \notin {"ABSENT", "NONSTRING"} /\ ~InProtected(o.path)
-              /\ (o.from = "ABSENT" \/ (o.from # "NONSTRING" /\ ~InProtected(o.from)))
+InProtected(s) == s \in {"/publicKey", "/publicKey/0", "/service", "/service/0/id", "/service/0", "x/publicKey", "publicKey", "x/service/0", "x/service"}
+\* "/publicKeys" and "/serviceCount" are other members that merely share a prefix with a section name: not protected
+NoSlash(s) == s \in {"x/publicKey", "publicKey", "x/service/0", "x/service"}
+\* a null "from" counts as absent (RFC 6902 members that an operation does not use are ignored); a null path is no path
+OpValid(o) == /\ o.path \notin {"ABSENT", "NONSTRING", "NULL"} /\ ~InProtected(o.path)
+              /\ (o.from \in {"ABSENT", "NULL"} \/ (o.from # "NONSTRING" /\ ~InProtected(o.from)))
 JsonOpSet == [op : Ops, path : Paths, from : Froms, value : Values]
 FirstOps == {[op |-> "add", path |-> "/nul", from |-> "ABSENT", value |-> "null"],
              [op |-> "add", path |-> "/arr/-", from |-> "ABSENT", value |-> "present"],
